@@ -1,4 +1,6 @@
 import Imdlv.Model.Streams
+import Imdlv.Model.WriteAll
+import Imdlv.Model.Basic
 namespace Driver.C18
 open Imdlv.Streams
 
@@ -6,8 +8,21 @@ def b (s : String) : Bool := s == "1"
 
 /-- `streams <NO_COLOR> <TERM=dumb> <ttyOut> <ttyErr> <auto|always|never> <terminal> <quiet>`
  → `out <active> <style> <term> err <active> <style> <term>` -/
+def intList? (s : String) : Option (List Int) :=
+  if s = "-" then some [] else
+    (s.splitOn ",").foldr (fun x acc => match x.toInt?, acc with
+      | some n, some l => some (n :: l)
+      | _, _ => none) (some [])
+
 def handle (args : List String) : String :=
   match args with
+  -- `writeall <active> <data hex> <script: comma separated integers | ->` → `ok <success> <delivered hex>`
+  | ["writeall", act, data, script] =>
+    match Imdlv.bytesOfHex data, intList? script with
+    | some d, some sc =>
+      let r := Imdlv.WriteAll.writeAll (b act) d sc
+      s!"ok {if r.1 then 1 else 0} {Imdlv.hexOrDash r.2}"
+    | _, _ => "bad-op"
   | ["streams", nc, td, to, te, col, tm, q] =>
     let color := if col == "always" then UseColor.always else if col == "never" then UseColor.never else UseColor.auto
     let c : Config := ⟨b nc, b td, b to, b te, color, b tm, b q⟩
